@@ -56,7 +56,7 @@ def logical_lines(text):
 
 
 HEAD = re.compile(
-    r'^(?:(?P<rtype>(?:real|integer|character|logical|type)\s*\([^)]*\))\s+)?'
+    r'^(?:(?:pure|elemental|impure|recursive|module)\s+)*(?:(?P<rtype>(?:real|integer|character|logical|type)\s*\([^)]*\))\s+)?(?:(?:pure|elemental|impure|recursive)\s+)*'
     r'(?P<kind>subroutine|function)\s+(?P<name>\w+)\s*'
     r'(?:\((?P<args>[^)]*)\))?\s*'
     r'(?P<suffix>.*)$', re.I)
@@ -72,7 +72,31 @@ def norm_type(t):
     m = re.match(r'^(real|integer|logical)\(kind=([^)]*)\)$', t)
     if m:
         t = '%s(%s)' % (m.group(1), m.group(2))
+    # a kind given by a named integer constant of the module (integer, parameter :: rk = c_double) is that kind
+    m = re.match(r'^(real|integer|logical)\((\w+)\)$', t)
+    if m and m.group(2) in KIND_ALIASES:
+        t = '%s(%s)' % (m.group(1), KIND_ALIASES[m.group(2)])
     return t
+
+
+KIND_ALIASES = {}
+PARAM_DECL = re.compile(r'^integer\s*(?:\([^)]*\))?\s*(?:,\s*(?:parameter|private|public)\s*)+::\s*(?P<rest>.+)$', re.I)
+
+
+def collect_kind_aliases(text):
+    """named kind constants: integer, parameter [, private] :: rk = c_double [, ik = c_int]"""
+    KIND_ALIASES.clear()
+    for raw in text.splitlines():
+        line = raw.split('!')[0].strip()
+        m = PARAM_DECL.match(line)
+        if not m or 'parameter' not in line.lower().split('::')[0]:
+            continue
+        for part in m.group('rest').split(','):
+            if '=' in part:
+                k, v = part.split('=', 1)
+                k, v = k.strip().lower(), v.strip().lower()
+                if re.match(r'^c_\w+$', v):
+                    KIND_ALIASES[k] = v
 
 
 ATTR_STMT = re.compile(r'^(?P<attr>value|optional|intent\s*\(\s*\w+\s*\)|dimension\s*\([^)]*\))\s*(?:::)?\s*(?P<names>.+)$', re.I)
@@ -97,6 +121,7 @@ class Proc:
 
 
 def parse(text):
+    collect_kind_aliases(text)
     """returns (list of top-level interface procedures, list of module procedures)"""
     lines = logical_lines(text)
     iface_depth = 0
